@@ -2061,6 +2061,24 @@ mod shutdown {
         std::mem::forget(w);
     }
 
+    /// The synchronous part of a teardown alone (no deferred work): connection 0 owns object
+    /// (0, 10) without services and is removed, forced or not, its peer reachable or not. Whatever
+    /// happens to the Shutdown announcement, the connection and its object are gone from every map
+    /// and one destruction event is queued.
+    fn owner_of_plain_object_is_removed(alive0: bool) {
+        let mut w = two_conns(alive0, true);
+        add_object(&mut w, 0, 10, 0);
+        let send_shutdown: bool = kani::any();
+        w.b.shutdown_connection(&mut w.st, &conn(0), send_shutdown);
+        assert!(!has_conn(&w, 0) && has_conn(&w, 1));
+        assert!(w.b.objs.is_empty() && w.b.obj_uuids.is_empty(), "a disconnect destroys everything the connection owned");
+        let q = stv::destroy_object(&w.st);
+        assert!(q.len() == 1 && q[0] == ObjectId::new(obj_uuid(0), obj_cookie(10)));
+        assert!(log_count_to(0) == if send_shutdown && alive0 { 1 } else { 0 } && log_count_to(1) == 0);
+        kani::cover!(send_shutdown);
+        std::mem::forget(w);
+    }
+
     macro_rules! inst {
         ($($name:ident = $lemma:ident($($arg:expr),*);)*) => {$(
             #[kani::proof]
@@ -2072,12 +2090,16 @@ mod shutdown {
     }
     use chv::EndSpec::{C, U, X};
 
-    // Not registered (cfg verif_experimental): every teardown lemma. `shutdown_connection` followed
+    // Not registered (cfg verif_experimental): every teardown lemma, down to the synchronous
+    // `shutdown_connection` of the owner of one object without services (out of memory after 517 s /
+    // timeout at 600 s). `shutdown_connection` followed
     // by `process_loop_result` runs the SAT back end out of memory at 14 GB even when the leaving
     // connection only holds a channel end and a bus listener (that instance was proved once, in
     // 642 s, with a 20 GB limit and nothing else running).
     #[cfg(verif_experimental)]
     inst! {
+        q_c09_c03_forced_shutdown_of_unreachable_owner = owner_of_plain_object_is_removed(false);
+        q_c09_c03_shutdown_of_owner = owner_of_plain_object_is_removed(true);
         q_c09_c05_leaves_with_sender_end_and_listener = leaves_with_channel_and_listener(C(0), C(1), true);
         q_c09_c05_leaves_with_both_ends = leaves_with_channel_and_listener(C(0), C(0), true);
         t_c09_c05_leaves_with_receiver_end = leaves_with_channel_and_listener(C(1), C(0), true);
